@@ -37,6 +37,10 @@ type stats struct {
 	lookups, coalesced, hazard, trOOO, memOOO                       int64
 	flushes, flushesInflight, discarded, dropped                    int64
 	servedAfterRestart, stale                                       int64
+
+	// accesses whose span [addr, addr+size) runs past the end of their page
+	strReads, strWrites, strMasked, strReadRsp, lenCompared int64
+	strShapes                                               map[string]bool
 }
 
 type treq struct {
@@ -46,6 +50,7 @@ type treq struct {
 	vpage     uint64
 	offset    uint64
 	wantAddr  uint64 // page.PAddr + offset for the page of its own (PID, virtual page)
+	over      uint64 // bytes of the access that lie beyond the end of its page (0 = inside the page)
 	recvSeq   int
 	accSeq    int
 	dropSeq   int
@@ -117,6 +122,16 @@ func diffPayload(orig, copy mem.AccessReq) string {
 	return ""
 }
 
+func describe(m mem.AccessReq) string {
+	switch q := m.(type) {
+	case *mem.ReadReq:
+		return fmt.Sprintf("read pid=%d addr=0x%x size=%d", q.PID, q.Address, q.AccessByteSize)
+	case *mem.WriteReq:
+		return fmt.Sprintf("write pid=%d addr=0x%x size=%d masked=%v", q.PID, q.Address, len(q.Data), q.DirtyMask != nil)
+	}
+	return fmt.Sprintf("%T", m)
+}
+
 func check(s scenario, out *runOut) (st stats) {
 	fail := func(key, what string, extra map[string]any) stats {
 		st.viol = &violation{key: key, what: what, extra: extra}
@@ -146,6 +161,9 @@ func check(s scenario, out *runOut) (st stats) {
 			return st
 		}
 		t.wantAddr = pa + t.offset
+		if end := t.offset + uint64(o.Size); end > pageSize {
+			t.over = end - pageSize
+		}
 		if byWant[t.wantAddr] != nil {
 			st.harness = "two ops share an expected physical address"
 			return st
@@ -258,7 +276,25 @@ func check(s scenario, out *runOut) (st stats) {
 					if !ok {
 						return fail("C16|wrong-response-type", fmt.Sprintf("read op %d answered by %T", t.op, rsp), x)
 					}
-					want := t.fwd.rsp.(*mem.DataReadyRsp).Data
+					mr, ok := t.fwd.rsp.(*mem.DataReadyRsp)
+					if !ok {
+						st.harness = "fake memory answered a read with something else than data"
+						return st
+					}
+					want := mr.Data
+					// the whole requested size comes back: as many bytes as the requester asked for, which is
+					// what the fake memory returns for a faithfully forwarded request
+					st.lenCompared++
+					if uint64(len(dr.Data)) != q.AccessByteSize {
+						x["got_bytes"], x["requested_bytes"], x["memory_returned_bytes"] = len(dr.Data), q.AccessByteSize, len(want)
+						x["bytes_beyond_page_end"] = t.over
+						return fail("C16|response-data-length-differs",
+							fmt.Sprintf("read op %d asked for %d bytes at v0x%x (%d of them beyond the end of its page), the response carries %d bytes (memory returned %d for the forwarded request)",
+								t.op, q.AccessByteSize, q.Address, t.over, len(dr.Data), len(want)), x)
+					}
+					if t.over > 0 {
+						st.strReadRsp++
+					}
 					if !bytes.Equal(dr.Data, want) {
 						x["got"], x["want"] = dr.Data, want
 						return fail("C16|wrong-payload",
@@ -374,7 +410,27 @@ func check(s scenario, out *runOut) (st stats) {
 					return fail("C16|forwarded-for-discarded-request", fmt.Sprintf("op %d was discarded by a flush, yet it is forwarded to memory afterwards", t.op), x)
 				}
 				if d := diffPayload(t.msg, req); d != "" {
-					return fail("C16|forwarded-request-differs|"+d, fmt.Sprintf("forwarded request of op %d differs from the original in %s", t.op, d), x)
+					x["original"], x["forwarded"] = describe(t.msg), describe(req)
+					x["bytes_beyond_page_end"] = t.over
+					return fail("C16|forwarded-request-differs|"+d,
+						fmt.Sprintf("forwarded request of op %d (%s, %d of its bytes lie beyond the end of its %d-byte page) differs from the original in %s: forwarded %s",
+							t.op, describe(t.msg), t.over, pageSize, d, describe(req)), x)
+				}
+				if t.over > 0 {
+					size := uint64(s.Ops[t.op].Size)
+					switch q := t.msg.(type) {
+					case *mem.ReadReq:
+						st.strReads++
+					case *mem.WriteReq:
+						st.strWrites++
+						if q.DirtyMask != nil {
+							st.strMasked++
+						}
+					}
+					if st.strShapes == nil {
+						st.strShapes = map[string]bool{}
+					}
+					st.strShapes[fmt.Sprintf("p=%d,size=%d,over=%d", c.Log2PageSize, size, t.over)] = true
 				}
 				t.fwd = f
 				f.t = t
